@@ -5,7 +5,7 @@
 int main(int argc, char **argv)
 {
     r_init(argc, argv);
-    size_t num = (size_t) r_u64("num", 0), size = (size_t) r_u64("size", 0);
+    size_t num = (size_t) r_u64("c_num", 0), size = (size_t) r_u64("c_size", 0);
     bool overflow = size != 0 && num > (size_t) -1 / size;
     size_t wrapped = num * size;
     printf("calloc(%lu, %lu): product %s size_t, wrapped request %lu\n", (unsigned long) num, (unsigned long) size, overflow ? "does not fit" : "fits", (unsigned long) wrapped);
